@@ -197,7 +197,7 @@ fn run_data(c: &mut Case) -> Result<Vec<u64>, BadCase> {
     let verdict = rt.block_on(async {
         let lens = lens.clone();
         let (outs, dgrams, flags) = (outs.clone(), dgrams.clone(), flags.clone());
-        let r = timeout(Duration::from_secs(20), async move {
+        let r = timeout(Duration::from_secs(8), async move {
             let Some(p) = establish(t).await else { return 1u64 };
             flags.set(flags.get() | 1);
             let Pair { server, client, sconn, cconn } = p;
@@ -411,7 +411,7 @@ fn run_close(c: &mut Case) -> Result<Vec<u64>, BadCase> {
     verif::start();
     let sl = slots.clone();
     let verdict = rt.block_on(async move {
-        let r = timeout(Duration::from_secs(15), async move {
+        let r = timeout(Duration::from_secs(8), async move {
             let Some(p) = establish(t).await else { return 1u64 };
             let Pair { server, client, sconn, cconn } = p;
             use compio_quic::{ReadError, StoppedError, WriteError};
